@@ -88,10 +88,10 @@ theorem view4_of_ip4 {d : Bytes} {r : IP4} (h : ip4 d = some r) (hv : ∃ b0, u8
 theorem quote4_of_parse {buf hp : Bytes} {k : Nat} {i : ICMP4} {q : IP4}
     (hw : Window hp buf k) (hi : icmp4 hp = some i) (hq : ip4 i.payload = some q) :
     quote4 buf k = some { icmpType := i.type, icmpCode := i.code, qSrc := q.src, qDst := q.dst,
-                          qId := q.id, qL4 := k + 8 + q.ihl * 4 } ∧
+                          qId := q.id, qProto := q.proto, qL4 := k + 8 + q.ihl * 4 } ∧
       Window q.payload buf (k + 8 + q.ihl * 4) := by
   obtain ⟨h1, h2, _, _, hpl, hlen⟩ := icmp4_spec hi
-  obtain ⟨c0, hc0, hihl, _, _, hid, _, _, hs, hd, hqlen, hwq⟩ := ip4_spec hq
+  obtain ⟨c0, hc0, hihl, _, _, hid, _, hpr, hs, hd, hqlen, hwq⟩ := ip4_spec hq
   have hwi : Window i.payload buf (k + 8) := by
     rw [hpl]; exact (Window.drop hp 8).trans hw
   have e1 := hw.u8 h1
@@ -100,10 +100,11 @@ theorem quote4_of_parse {buf hp : Bytes} {k : Nat} {i : ICMP4} {q : IP4}
   have e4 := hwi.u16 hid
   have e5 := hwi.raw (off := 12) (n := 4) (by omega) (by omega)
   have e6 := hwi.raw (off := 16) (n := 4) (by omega) (by omega)
+  have e7 := hwi.u8 hpr
   simp only [Nat.add_zero] at e1 e3
   constructor
   · unfold quote4
-    rw [e1, e2, e3, e4, e5, e6]
+    rw [e1, e2, e3, e4, e5, e6, e7]
     simp [hs, hd, hihl]
   · have := hwq.trans hwi
     simpa [Nat.add_assoc] using this
@@ -396,15 +397,16 @@ end TRV.Proofs
 namespace TRV.Proofs
 open TRV TRV.Wire TRV.Drv TRV.Spec
 
-/-- an ICMPv6 error in the outer payload whose quoted IPv6 header has no hop-by-hop header: what
-    `Spec.quote6` reads at the raw offsets -/
+/-- an ICMPv6 error in the outer payload whose quoted IPv6 header has no hop-by-hop header (its
+    next-header field, `WrappedProtocol`, is not 0): what `Spec.quote6` reads at the raw offsets -/
 theorem quote6_of_parse {buf pl : Bytes} {k : Nat} {i : ICMP6} {nfo : ICMPInfo}
     (hw : Window pl buf k) (hi : icmp6 pl = some i) (hinfo : icmpInfo6 i = some nfo)
-    (hnz : u8 buf (k + 8 + 6) ≠ some 0) :
+    (hnz : nfo.proto ≠ 0) :
     ∃ qnh qplen,
       quote6 buf k = some { icmpType := i.type, icmpCode := i.code, qSrc := nfo.qsrc,
                             qDst := nfo.qdst, qNh := qnh, qPlen := qplen, qL4 := k + 8 + 40 } ∧
-      Window nfo.payload buf (k + 8 + 40) ∧ nfo.wrappedId = (if qnh = 17 then qplen else 0) := by
+      Window nfo.payload buf (k + 8 + 40) ∧ nfo.wrappedId = (if qnh = 17 then qplen else 0) ∧
+      qnh = nfo.proto := by
   obtain ⟨h1, h2, hpl, hlen⟩ := icmp6_spec hi
   unfold icmpInfo6 at hinfo
   split at hinfo; · simp at hinfo
@@ -432,10 +434,9 @@ theorem quote6_of_parse {buf pl : Bytes} {k : Nat} {i : ICMP6} {nfo : ICMPInfo}
     have e6 := hwq0.raw (off := 8) (n := 16) (by omega) (by omega)
     have e7 := hwq0.raw (off := 24) (n := 16) (by omega) (by omega)
     simp only [Nat.add_zero] at e1 e3
-    have hqnz : q.nextHeader ≠ 0 := by
-      intro h0; rw [h0] at e5; exact hnz e5
+    have hqnz : q.nextHeader ≠ 0 := by simpa using hnz
     rcases hcase with ⟨_, _, hwp⟩ | ⟨hz, _⟩
-    · refine ⟨q.nextHeader, q.len, ?_, ?_, rfl⟩
+    · refine ⟨q.nextHeader, q.len, ?_, ?_, rfl, rfl⟩
       · unfold quote6
         rw [e1, e2, e3, e4, e5, e6, e7]
         simp [hb6, hqnz, hs, hd]
